@@ -1274,6 +1274,8 @@ func TestProp(t *testing.T) {
 		return
 	}
 	defer r.Finish()
+	var pool evid.Pool[Case] // rapid-drawn cases, evaluated side by side once more at the end
+	defer func() { evid.Concurrent(r, &pool, 16, Eval) }()
 	smp := samples()
 	if _, ok := smp["testuser1.testtab"]; !ok {
 		r.Inconclusive("sample keytab test/testdata/testuser1.testtab not found under %s", repoDir())
@@ -1359,6 +1361,9 @@ func TestProp(t *testing.T) {
 		v := Eval(c)
 		switch {
 		case rt != nil:
+			if v.OK {
+				pool.Add(check, c)
+			}
 			if r.Judge(check, c, v) {
 				rt.Fatalf("violation: %s", v.Sig)
 			}
